@@ -131,6 +131,8 @@ def field_of(name):
         return verif.field.Quantile(float(name[1:]))
     if name[0] == "p" and mat_isnum(name[1:]):
         return verif.field.Threshold(float(name[1:]))
+    if name[0] == "e" and name[1:].isdigit():
+        return verif.field.Ensemble(int(name[1:]))
     return verif.field.Other(name)
 
 
